@@ -62,6 +62,8 @@ class Slice(NullCell):
         return bits
 
     def preload_uint(self, length: int) -> int:
+        if length == 0:
+            return 0  # (## 0) is an empty field with value 0
         return ba2int(self.bits[:length], signed=False)
 
     def load_uint(self, length: int) -> int:
@@ -91,7 +93,7 @@ class Slice(NullCell):
             return None
         if rem == 1:
             len_ = int(self.preload_bits(11)[2:].to01(), 2)
-            addr = int(self.preload_bits(11 + len_)[11:].to01(), 2)
+            addr = int(self.preload_bits(11 + len_)[11:].to01(), 2) if len_ else 0
             return ExternalAddress(addr, len_)
         if rem != 2:
             raise SliceError('Unsupported address type')
